@@ -1,0 +1,457 @@
+//! Verification seams (only compiled with `--cfg prometheus_verif`).
+//!
+//! Every synchronisation primitive, clock read and background-thread operation of
+//! this crate goes through the wrappers in this module when the cfg flag is set.
+//! Each wrapper reports the operation to a per-thread [`Hooks`] object *before*
+//! performing it (so an external deterministic scheduler can decide who runs next)
+//! and reports the outcome afterwards. On threads without installed hooks the
+//! wrappers are plain pass-throughs to the real primitives.
+#![allow(missing_docs, missing_debug_implementations)]
+
+use std::cell::RefCell;
+use std::sync::Arc;
+
+pub use std::sync::atomic::Ordering;
+
+#[derive(Debug, Clone, Copy, PartialEq, Eq, Hash, PartialOrd, Ord)]
+pub enum OpKind {
+    Load,
+    Store,
+    Swap,
+    FetchAdd,
+    FetchSub,
+    Cas,
+    CasWeak,
+    MutexLock,
+    MutexUnlock,
+    RwReadLock,
+    RwReadUnlock,
+    RwWriteLock,
+    RwWriteUnlock,
+}
+
+#[derive(Debug, Clone, Copy)]
+pub struct Op {
+    pub kind: OpKind,
+    pub addr: usize,
+    pub order: Ordering,
+    pub fail_order: Ordering,
+    pub a: u64,
+    pub b: u64,
+    pub file: &'static str,
+    pub line: u32,
+}
+
+#[derive(Debug, Clone, Copy, PartialEq, Eq)]
+pub enum Directive {
+    Proceed,
+    /// Only meaningful for `CasWeak`: fail without comparing.
+    SpuriousFail,
+}
+
+pub trait Hooks: Send + Sync {
+    fn before(&self, op: &Op) -> Directive;
+    fn after(&self, op: &Op, result: u64, ok: bool);
+    fn now_nanos(&self) -> u64;
+    fn sleep_nanos(&self, nanos: u64);
+    fn spawn(&self, name: &str, f: Box<dyn FnOnce() + Send + 'static>);
+}
+
+thread_local! {
+    static HOOKS: RefCell<Option<Arc<dyn Hooks>>> = const { RefCell::new(None) };
+}
+
+/// Install (or remove) the hooks of the calling thread; returns the previous ones.
+pub fn install(h: Option<Arc<dyn Hooks>>) -> Option<Arc<dyn Hooks>> {
+    HOOKS.with(|c| std::mem::replace(&mut *c.borrow_mut(), h))
+}
+
+#[inline]
+pub fn current() -> Option<Arc<dyn Hooks>> {
+    HOOKS.try_with(|c| c.borrow().clone()).ok().flatten()
+}
+
+#[track_caller]
+#[inline]
+fn mk(kind: OpKind, addr: usize, order: Ordering, fail_order: Ordering, a: u64, b: u64) -> Op {
+    let loc = std::panic::Location::caller();
+    Op {
+        kind,
+        addr,
+        order,
+        fail_order,
+        a,
+        b,
+        file: loc.file(),
+        line: loc.line(),
+    }
+}
+
+pub mod sync {
+    use super::*;
+
+    pub mod atomic {
+        use super::super::*;
+        pub use std::sync::atomic::Ordering;
+
+        macro_rules! atomic_int {
+            ($name:ident, $std:ty, $t:ty) => {
+                #[derive(Debug)]
+                pub struct $name {
+                    v: $std,
+                }
+                impl $name {
+                    pub const fn new(v: $t) -> Self {
+                        Self { v: <$std>::new(v) }
+                    }
+                    #[inline]
+                    fn addr(&self) -> usize {
+                        &self.v as *const _ as usize
+                    }
+                    #[track_caller]
+                    pub fn load(&self, o: Ordering) -> $t {
+                        match current() {
+                            None => self.v.load(o),
+                            Some(h) => {
+                                let op = mk(OpKind::Load, self.addr(), o, o, 0, 0);
+                                h.before(&op);
+                                let r = self.v.load(o);
+                                h.after(&op, r as u64, true);
+                                r
+                            }
+                        }
+                    }
+                    #[track_caller]
+                    pub fn store(&self, val: $t, o: Ordering) {
+                        match current() {
+                            None => self.v.store(val, o),
+                            Some(h) => {
+                                let op = mk(OpKind::Store, self.addr(), o, o, val as u64, 0);
+                                h.before(&op);
+                                self.v.store(val, o);
+                                h.after(&op, 0, true);
+                            }
+                        }
+                    }
+                    #[track_caller]
+                    pub fn swap(&self, val: $t, o: Ordering) -> $t {
+                        match current() {
+                            None => self.v.swap(val, o),
+                            Some(h) => {
+                                let op = mk(OpKind::Swap, self.addr(), o, o, val as u64, 0);
+                                h.before(&op);
+                                let r = self.v.swap(val, o);
+                                h.after(&op, r as u64, true);
+                                r
+                            }
+                        }
+                    }
+                    #[track_caller]
+                    pub fn compare_exchange(
+                        &self,
+                        cur: $t,
+                        new: $t,
+                        s: Ordering,
+                        f: Ordering,
+                    ) -> Result<$t, $t> {
+                        match current() {
+                            None => self.v.compare_exchange(cur, new, s, f),
+                            Some(h) => {
+                                let op = mk(OpKind::Cas, self.addr(), s, f, cur as u64, new as u64);
+                                h.before(&op);
+                                let r = self.v.compare_exchange(cur, new, s, f);
+                                match r {
+                                    Ok(v) => h.after(&op, v as u64, true),
+                                    Err(v) => h.after(&op, v as u64, false),
+                                }
+                                r
+                            }
+                        }
+                    }
+                    #[track_caller]
+                    pub fn compare_exchange_weak(
+                        &self,
+                        cur: $t,
+                        new: $t,
+                        s: Ordering,
+                        f: Ordering,
+                    ) -> Result<$t, $t> {
+                        match current() {
+                            None => self.v.compare_exchange_weak(cur, new, s, f),
+                            Some(h) => {
+                                let op =
+                                    mk(OpKind::CasWeak, self.addr(), s, f, cur as u64, new as u64);
+                                let r = match h.before(&op) {
+                                    Directive::SpuriousFail => Err(self.v.load(f)),
+                                    Directive::Proceed => self.v.compare_exchange(cur, new, s, f),
+                                };
+                                match r {
+                                    Ok(v) => h.after(&op, v as u64, true),
+                                    Err(v) => h.after(&op, v as u64, false),
+                                }
+                                r
+                            }
+                        }
+                    }
+                }
+            };
+        }
+        macro_rules! atomic_arith {
+            ($name:ident, $t:ty) => {
+                impl $name {
+                    #[track_caller]
+                    pub fn fetch_add(&self, val: $t, o: Ordering) -> $t {
+                        match current() {
+                            None => self.v.fetch_add(val, o),
+                            Some(h) => {
+                                let op = mk(OpKind::FetchAdd, self.addr(), o, o, val as u64, 0);
+                                h.before(&op);
+                                let r = self.v.fetch_add(val, o);
+                                h.after(&op, r as u64, true);
+                                r
+                            }
+                        }
+                    }
+                    #[track_caller]
+                    pub fn fetch_sub(&self, val: $t, o: Ordering) -> $t {
+                        match current() {
+                            None => self.v.fetch_sub(val, o),
+                            Some(h) => {
+                                let op = mk(OpKind::FetchSub, self.addr(), o, o, val as u64, 0);
+                                h.before(&op);
+                                let r = self.v.fetch_sub(val, o);
+                                h.after(&op, r as u64, true);
+                                r
+                            }
+                        }
+                    }
+                }
+            };
+        }
+        atomic_int!(AtomicU64, std::sync::atomic::AtomicU64, u64);
+        atomic_int!(AtomicI64, std::sync::atomic::AtomicI64, i64);
+        atomic_int!(AtomicBool, std::sync::atomic::AtomicBool, bool);
+        atomic_arith!(AtomicU64, u64);
+        atomic_arith!(AtomicI64, i64);
+    }
+
+    // ---------------------------------------------------------------- Mutex (std-shaped)
+
+    #[derive(Debug, Default)]
+    pub struct Mutex<T> {
+        inner: std::sync::Mutex<T>,
+    }
+
+    pub struct MutexGuard<'a, T> {
+        g: Option<std::sync::MutexGuard<'a, T>>,
+        addr: usize,
+    }
+
+    impl<T> Mutex<T> {
+        pub fn new(t: T) -> Self {
+            Self {
+                inner: std::sync::Mutex::new(t),
+            }
+        }
+        #[track_caller]
+        pub fn lock(&self) -> std::sync::LockResult<MutexGuard<'_, T>> {
+            let addr = &self.inner as *const _ as usize;
+            let h = current();
+            let op = mk(OpKind::MutexLock, addr, Ordering::Acquire, Ordering::Acquire, 0, 0);
+            if let Some(h) = &h {
+                h.before(&op);
+            }
+            let g = self.inner.lock().unwrap_or_else(|e| e.into_inner());
+            if let Some(h) = &h {
+                h.after(&op, 0, true);
+            }
+            Ok(MutexGuard { g: Some(g), addr })
+        }
+    }
+
+    impl<T> std::ops::Deref for MutexGuard<'_, T> {
+        type Target = T;
+        fn deref(&self) -> &T {
+            self.g.as_ref().unwrap()
+        }
+    }
+    impl<T> std::ops::DerefMut for MutexGuard<'_, T> {
+        fn deref_mut(&mut self) -> &mut T {
+            self.g.as_mut().unwrap()
+        }
+    }
+    impl<T> Drop for MutexGuard<'_, T> {
+        fn drop(&mut self) {
+            unlock_with(OpKind::MutexUnlock, self.addr, || {
+                self.g.take();
+            });
+        }
+    }
+
+    fn unlock_with(kind: OpKind, addr: usize, f: impl FnOnce()) {
+        let h = current();
+        let op = Op {
+            kind,
+            addr,
+            order: Ordering::Release,
+            fail_order: Ordering::Release,
+            a: 0,
+            b: 0,
+            file: "",
+            line: 0,
+        };
+        if let Some(h) = &h {
+            h.before(&op);
+        }
+        f();
+        if let Some(h) = &h {
+            h.after(&op, 0, true);
+        }
+    }
+
+    // ---------------------------------------------------------- RwLock (parking_lot-shaped)
+
+    #[derive(Debug, Default)]
+    pub struct RwLock<T> {
+        inner: parking_lot::RwLock<T>,
+    }
+    pub struct RwLockReadGuard<'a, T> {
+        g: Option<parking_lot::RwLockReadGuard<'a, T>>,
+        addr: usize,
+    }
+    pub struct RwLockWriteGuard<'a, T> {
+        g: Option<parking_lot::RwLockWriteGuard<'a, T>>,
+        addr: usize,
+    }
+    impl<T> RwLock<T> {
+        pub fn new(t: T) -> Self {
+            Self {
+                inner: parking_lot::RwLock::new(t),
+            }
+        }
+        #[track_caller]
+        pub fn read(&self) -> RwLockReadGuard<'_, T> {
+            let addr = &self.inner as *const _ as usize;
+            let h = current();
+            let op = mk(OpKind::RwReadLock, addr, Ordering::Acquire, Ordering::Acquire, 0, 0);
+            if let Some(h) = &h {
+                h.before(&op);
+            }
+            let g = self.inner.read();
+            if let Some(h) = &h {
+                h.after(&op, 0, true);
+            }
+            RwLockReadGuard { g: Some(g), addr }
+        }
+        #[track_caller]
+        pub fn write(&self) -> RwLockWriteGuard<'_, T> {
+            let addr = &self.inner as *const _ as usize;
+            let h = current();
+            let op = mk(OpKind::RwWriteLock, addr, Ordering::Acquire, Ordering::Acquire, 0, 0);
+            if let Some(h) = &h {
+                h.before(&op);
+            }
+            let g = self.inner.write();
+            if let Some(h) = &h {
+                h.after(&op, 0, true);
+            }
+            RwLockWriteGuard { g: Some(g), addr }
+        }
+    }
+    impl<T> std::ops::Deref for RwLockReadGuard<'_, T> {
+        type Target = T;
+        fn deref(&self) -> &T {
+            self.g.as_ref().unwrap()
+        }
+    }
+    impl<T> Drop for RwLockReadGuard<'_, T> {
+        fn drop(&mut self) {
+            unlock_with(OpKind::RwReadUnlock, self.addr, || {
+                self.g.take();
+            });
+        }
+    }
+    impl<T> std::ops::Deref for RwLockWriteGuard<'_, T> {
+        type Target = T;
+        fn deref(&self) -> &T {
+            self.g.as_ref().unwrap()
+        }
+    }
+    impl<T> std::ops::DerefMut for RwLockWriteGuard<'_, T> {
+        fn deref_mut(&mut self) -> &mut T {
+            self.g.as_mut().unwrap()
+        }
+    }
+    impl<T> Drop for RwLockWriteGuard<'_, T> {
+        fn drop(&mut self) {
+            unlock_with(OpKind::RwWriteUnlock, self.addr, || {
+                self.g.take();
+            });
+        }
+    }
+}
+
+pub mod time {
+    use super::current;
+    use std::time::Duration;
+
+    /// `std::time::Instant` look-alike reading the installed hooks' clock.
+    #[derive(Debug, Clone, Copy)]
+    pub enum Instant {
+        Real(std::time::Instant),
+        Sim(u64),
+    }
+
+    impl Instant {
+        pub fn now() -> Instant {
+            match current() {
+                None => Instant::Real(std::time::Instant::now()),
+                Some(h) => Instant::Sim(h.now_nanos()),
+            }
+        }
+        pub fn saturating_duration_since(&self, earlier: Instant) -> Duration {
+            match (self, earlier) {
+                (Instant::Real(a), Instant::Real(b)) => a.saturating_duration_since(b),
+                (Instant::Sim(a), Instant::Sim(b)) => Duration::from_nanos(a.saturating_sub(b)),
+                _ => Duration::ZERO,
+            }
+        }
+        pub fn checked_duration_since(&self, earlier: Instant) -> Option<Duration> {
+            match (self, earlier) {
+                (Instant::Real(a), Instant::Real(b)) => a.checked_duration_since(b),
+                (Instant::Sim(a), Instant::Sim(b)) => a.checked_sub(b).map(Duration::from_nanos),
+                _ => None,
+            }
+        }
+        pub fn duration_since(&self, earlier: Instant) -> Duration {
+            self.saturating_duration_since(earlier)
+        }
+        pub fn elapsed(&self) -> Duration {
+            Instant::now().saturating_duration_since(*self)
+        }
+    }
+}
+
+pub mod thread {
+    use super::current;
+    use std::time::Duration;
+
+    pub fn sleep(d: Duration) {
+        match current() {
+            None => std::thread::sleep(d),
+            Some(h) => h.sleep_nanos(d.as_nanos() as u64),
+        }
+    }
+
+    pub fn spawn_named<F: FnOnce() + Send + 'static>(name: &str, f: F) {
+        match current() {
+            None => {
+                std::thread::Builder::new()
+                    .name(name.to_owned())
+                    .spawn(f)
+                    .unwrap();
+            }
+            Some(h) => h.spawn(name, Box::new(f)),
+        }
+    }
+}
